@@ -12,6 +12,7 @@ Not decided: bitwise reproducibility of library numerics; worker completion orde
 import ast
 import os
 
+from ..model import canon as K
 from ..model import Program, Module, walk_own, is_self_attr, dotted, canon
 from ..options import Schemas
 from ..report import AnalysisError, VERIF
@@ -314,16 +315,20 @@ def r4(prog, rep):
                     for t in (s.targets if isinstance(s, ast.Assign) else [s.target]):
                         if isinstance(t, ast.Attribute) and t.attr == "geqdsk_input":
                             stores.append((f, s))
-    ok = len(stores) == 1
-    detail = "%d stores" % len(stores)
-    if ok:
-        f, s = stores[0]
+    # every store (one today; a helper that does the same is one more) takes the whole text of a
+    # handle that the statement before has rewound: X.seek(0); <obj>.geqdsk_input = X.read()
+    ok = bool(stores)
+    details = []
+    for f, s in stores:
         body = _enclosing_body(f.node, s)
         i = body.index(s)
         prev = body[i - 1] if i > 0 else None
-        ok = isinstance(s, ast.Assign) and " ".join(f.module.text(s.value).split()) == "filehandle.read()" and prev is not None \
-            and " ".join(f.module.text(prev).split()) == "filehandle.seek(0)"
-        detail = "value %s after %s" % (" ".join(f.module.text(s.value).split()), " ".join(f.module.text(prev).split()) if prev else None)
+        v = s.value if isinstance(s, ast.Assign) else None
+        good = isinstance(v, ast.Call) and isinstance(v.func, ast.Attribute) and v.func.attr == "read" and not v.args and not v.keywords and isinstance(v.func.value, ast.Name) \
+            and prev is not None and f.module.code(prev) == K("%s.seek(0)" % v.func.value.id)
+        ok = ok and good
+        details.append("%s: value %s after %s" % (f.qualname, f.module.code(s.value), f.module.code(prev) if prev is not None else None))
+    detail = "; ".join(details) if stores else "no store of geqdsk_input"
     rep.ob("R4", "geqdsk_input is stored once, as filehandle.read() right after seek(0)", ok, stores[0][0].site(stores[0][1]) if stores else TOK, detail, key="prov/geqdsk-store")
     wr = [n for n in ast.walk(w.node) if isinstance(n, ast.Call) and isinstance(n.func, ast.Attribute) and n.func.attr == "write" and n.args
           and isinstance(n.args[0], ast.Constant) and n.args[0].value == "hypnotoad_input_geqdsk_file_contents"]
